@@ -5,6 +5,7 @@ from ..front_common import hx, parse_diags
 
 ALLOWED_AXIOMS = ()
 COMPONENT = "emit"
+NEEDS_SLICEC = True
 PAYLOADS = ["plain", 'qu"ote', "back\\slash", "tab\there", "ünïcödé 日本", "ctl\x01\x1f", "\x7f del", "new\\nline", "emoji 😀", "", "a,b=c", "  spaced  "]
 NAMES = ["a.slice", 'q"uote.slice', "ü nï.slice", "t\tab.slice", "sub/dir.slice", "back\\slash.slice", "ctl\x02.slice", "sp ace.slice"]
 
@@ -35,6 +36,9 @@ def templates(rng):
         "",
         "module M\r\nstruct S { a: Nope }\r\nstruct T { b: Nope }\r\n",
         "module M\nunchecked enum E : uint8 { A = 300, B = 300 }\ninterface I { op(stream a: int32, b: int32) }\n",
+        # the same diagnostic recorded several times in a row (same code, message and location): once per use of an alias
+        "module M\nstruct Key { f: float32 }\ntypealias Lookup = Dictionary<Key, bool>\nstruct S { a: Lookup, b: Lookup }\n",
+        "module M\ntypealias A = [deprecated] int32\nstruct S { a: A, b: A, c: Sequence<A> }\n",
     ]
 
 
@@ -163,4 +167,39 @@ def run(ck):
     ck.extra["coloured_outputs"] = coloured
     if coloured < len(sample) // 10:
         ck.violation("colours", "colours-not-exercised", "%d of %d outputs carried escape sequences" % (coloured, len(sample)), "colours forced on", str(coloured), kind="correspondence")
-    ck.partial.append("the summary lines written by emit_totals to stdout are exercised through the real binary in the driver checks (C07); a generator's own stderr text is copied to slicec's stderr in front of the JSON lines (noted under C18)")
+    # the binary: what it writes is what the emitter writes for the recorded diagnostics, then the totals; no escape sequence with --disable-color
+    from .. import driver_common as dc
+    bsample = [i for i in range(len(cases)) if len({nm for nm, _ in cases[i][2]}) == len(cases[i][2])][:(160 if ck.tier == "quick" else 1600)]
+    blines = []
+    for i in bsample:
+        fmt, opts, files = cases[i]
+        extra = ["--diagnostic-format", fmt, "--disable-color", "--dry-run", "--vh-force-color"] + [x for a in (opts.split(",") if opts != "-" else []) for x in ("-A", a[2:])]
+        blines.append(dc.run_line(False, extra, [], [("S", nm, t) for nm, t in files]))
+    ob = dc.run_all(blines, chunk=10)
+    ck.stream("binary", description="the slicec binary on the same programs with --disable-color while the environment asks for colours: its diagnostic stream is byte for byte what the emitter writes for the recorded "
+              "diagnostics (JSON and human), the totals on stdout (human format only) carry the numbers of warnings and errors shown, and neither stream contains an escape sequence")
+    for i, line, oo in zip(bsample, blines, ob):
+        fmt, opts, files = cases[i]
+        ck.count("binary", line, kind=fmt)
+        r = dc.parse_run(oo)
+        parts = o[i].split(" || ")
+        if r is None or len(parts) != 3:
+            if r is None:
+                ck.violation("binary", "crash", line[:300], "a run", oo[:200])
+            continue
+        if any("\x1b" in t for _, t in files):
+            continue
+        want = bytes.fromhex(parts[0]) if parts[0] != "-" else b""
+        tw, te = [int(x) for x in parts[2].split(" ")[1:]]
+        case = "--diagnostic-format %s %s\n%s" % (fmt, opts, "\n--\n".join("[%s]\n%s" % (nm, t) for nm, t in files))
+        if r["stderr"] != want:
+            ck.violation("binary", "diagnostic-stream-differs", case, want.decode("utf-8", "replace")[:400], r["stderr"].decode("utf-8", "replace")[:400])
+        if b"\x1b" in r["stdout"] or b"\x1b" in r["stderr"]:
+            ck.violation("binary", "escape-sequence-with-colours-disabled", case, "no escape sequence on either stream", repr((r["stdout"] + r["stderr"])[:200]))
+        wt = (("Warnings: Compilation generated %d warning(s)\n" % tw) if tw else "") + (("Failed: Compilation failed with %d error(s)\n" % te) if te else "")
+        plain_out = re.sub(rb"\x1b\[[0-9;]*m", b"", r["stdout"])
+        if plain_out.decode("utf-8", "replace") != (wt if fmt == "human" else ""):
+            ck.violation("binary", "totals-differ", case, repr(wt if fmt == "human" else ""), repr(plain_out[:200]))
+        if r["exit"] != ("1" if te else "0"):
+            ck.violation("binary", "exit-status", case, "1" if te else "0", r["exit"])
+    ck.partial.append("which escape sequences the console library uses is its business; a generator's own stderr text is copied to slicec's stderr in front of the JSON lines (noted under C18)")
